@@ -4,3 +4,9 @@ open LhasaV.Props.C08
 #print axioms header_consumes_within
 #print axioms leadin_no_fault
 #print axioms reader_no_uaf
+#print axioms LhasaV.Props.C08.tool_no_fault
+#print axioms LhasaV.Props.C08.extract_run_no_fault
+#print axioms LhasaV.Props.C08.print_run_no_fault
+#print axioms LhasaV.Props.C08.list_headers_no_fault
+#print axioms LhasaV.Props.C08.history_no_fault
+#print axioms LhasaV.Props.C08.visited_state_ok
